@@ -6,27 +6,29 @@ From Coq Require Import Permutation.
 From TL Require Import Lib.Base Lib.GenTypes Gen.OrchHistGen Model.OrchHist Model.OrchHistRun Actual.OrchHistActual
      Proofs.OrchHistMain.
 
-Definition w_dirs : list (nat * list nat) := [(0, [0; 1; 2; 9])].
+Definition w_dirs : list (nat * list nat) := [(0, [0; 1; 2; 8; 9])].
 Definition w_ign : list (nat * list nat) := [(0, []); (5, [1])].   (* version 4 of the ignore file (path 9) ignores path 1 *)
-Definition w_fs : fsys := [(0, 0); (1, 1); (2, 2)].
-Definition only_dry : oquirks := Build_oquirks true false false false false.
-Definition only_leaves : oquirks := Build_oquirks false true false false false.
-Definition only_consts : oquirks := Build_oquirks false false true false false.
-Definition only_reuse : oquirks := Build_oquirks false false false true false.
+Definition w_fs : fsys := [(0, 0); (1, 1); (2, 2); (8, 0)].   (* path 8: the configuration file, path 9: the ignore file *)
+Definition only_dry : oquirks := Build_oquirks true false false false false false false.
+Definition only_leaves : oquirks := Build_oquirks false true false false false false false.
+Definition only_consts : oquirks := Build_oquirks false false true false false false false.
+Definition only_reuse : oquirks := Build_oquirks false false false true false false false.
+Definition only_dry_sticky : oquirks := Build_oquirks false false false false false true false.
+Definition only_fp_sticky : oquirks := Build_oquirks false false false false false false true.
 
 (* REGRESSION (finding q_dry_keeps_storage, fixed by 8b82489): lint the directory, delete a file, lint again - under the
    vector claimed for the current tree every call now returns what a fresh object returns *)
 Definition w_delete : list op := [ApiLint (TDir 0 [0; 1; 2]); Delete 1; ApiLint (TDir 0 [0; 2])].
 Example C08_dry_storage_regression :
-  sym_run [] w_ign 9 w_dirs orch_actual w_fs w_delete = sym_fresh_run [] w_ign 9 w_dirs orch_actual w_fs w_delete
-  /\ sym_run [] w_ign 9 w_dirs only_dry w_fs w_delete = sym_fresh_run [] w_ign 9 w_dirs only_dry w_fs w_delete.
+  sym_run [] w_ign 9 8 w_dirs orch_actual w_fs w_delete = sym_fresh_run [] w_ign 9 8 w_dirs orch_actual w_fs w_delete
+  /\ sym_run [] w_ign 9 8 w_dirs only_dry w_fs w_delete = sym_fresh_run [] w_ign 9 8 w_dirs only_dry w_fs w_delete.
 Proof. split; vm_compute; reflexivity. Qed.
 
 (* Orchestrator.lint_file leaves its evidence behind: the next batch run reports it (still present) *)
 Definition w_single : list op := [LintFile 0; LintFiles [1]].
 Theorem C08_lintfile_evidence_refuted :
-  sym_run [] w_ign 9 w_dirs only_leaves w_fs w_single <> sym_fresh_run [] w_ign 9 w_dirs only_leaves w_fs w_single
-  /\ sym_run [] w_ign 9 w_dirs orch_actual w_fs w_single <> sym_fresh_run [] w_ign 9 w_dirs orch_actual w_fs w_single.
+  sym_run [] w_ign 9 8 w_dirs only_leaves w_fs w_single <> sym_fresh_run [] w_ign 9 8 w_dirs only_leaves w_fs w_single
+  /\ sym_run [] w_ign 9 8 w_dirs orch_actual w_fs w_single <> sym_fresh_run [] w_ign 9 8 w_dirs orch_actual w_fs w_single.
 Proof. split; vm_compute; discriminate. Qed.
 
 (* REGRESSION (finding q_consts_in_processing_order, fixed by 5ce39e3): two orders of the same file list give the same
@@ -34,17 +36,29 @@ Proof. split; vm_compute; discriminate. Qed.
 Definition w_order_a : list op := [LintFiles [0; 1; 2]].
 Definition w_order_b : list op := [LintFiles [2; 1; 0]].
 Definition run_c (q : oquirks) (h : list op) : list (list tok) :=
-  map out_all (snd (run tok (fun _ _ => []) (fun _ _ => []) (sym_rep 1) (fun _ => []) (fun _ => false) (fun _ _ => false) 9 (tbl_in_dir w_dirs) q (init_st None, w_fs) h)).
+  map out_all (snd (run tok (fun _ _ => []) (fun _ _ => []) (fun _ _ _ => []) (sym_rep 1) (fun _ => []) (fun _ => false) (fun _ _ => false) 9 8 (tbl_in_dir w_dirs) q (init_st None (Some 0), w_fs) h)).
 Example C08_consts_order_regression :
   run_c orch_actual w_order_a = run_c orch_actual w_order_b /\ run_c only_consts w_order_a = run_c only_consts w_order_b
-  /\ run_c orch_actual w_order_a = [[TRep 1 0 [(0, 0); (1, 1); (2, 2)]]].
+  /\ run_c orch_actual w_order_a = [[TRep 1 0 1 [(0, 1); (1, 9); (2, 17)]]].
 Proof. repeat split; vm_compute; reflexivity. Qed.
 
 (* a new Linter built in the same process after the ignore file changed keeps the patterns (and decisions) of the old one:
    path 1 is ignored by the new version of the ignore file, yet still linted *)
 Definition w_reuse : list op := [ApiLint (TDir 0 [0; 1; 2]); Add 9 4; NewLinter; ApiLint (TDir 0 [0; 1; 2; 9])].
 Theorem C08_ignore_parser_reuse_refuted :
-  hist_synced 9 false w_reuse = true
-  /\ sym_run [] w_ign 9 w_dirs only_reuse w_fs w_reuse <> sym_fresh_run [] w_ign 9 w_dirs only_reuse w_fs w_reuse
-  /\ sym_run [] w_ign 9 w_dirs orch_actual w_fs w_reuse <> sym_fresh_run [] w_ign 9 w_dirs orch_actual w_fs w_reuse.
+  hist_synced 9 8 false false w_reuse = true
+  /\ sym_run [] w_ign 9 8 w_dirs only_reuse w_fs w_reuse <> sym_fresh_run [] w_ign 9 8 w_dirs only_reuse w_fs w_reuse
+  /\ sym_run [] w_ign 9 8 w_dirs orch_actual w_fs w_reuse <> sym_fresh_run [] w_ign 9 8 w_dirs orch_actual w_fs w_reuse.
 Proof. split; [reflexivity|]. split; vm_compute; discriminate. Qed.
+
+(* the configuration of a live object is reloaded (orchestrator.config = the new file): DRYRule keeps reporting under the
+   configuration it saw first, FilePlacementRule keeps the linter it built from it *)
+Definition w_reload : list op := [ApiLint (TDir 0 [0; 1; 2]); Edit 8 1; ReloadConfig; ApiLint (TDir 0 [0; 1; 2])].
+Theorem C08_dry_config_sticky_refuted :
+  hist_synced 9 8 false false w_reload = true
+  /\ sym_run [] w_ign 9 8 w_dirs only_dry_sticky w_fs w_reload <> sym_fresh_run [] w_ign 9 8 w_dirs only_dry_sticky w_fs w_reload
+  /\ sym_run [] w_ign 9 8 w_dirs orch_actual w_fs w_reload <> sym_fresh_run [] w_ign 9 8 w_dirs orch_actual w_fs w_reload.
+Proof. split; [reflexivity|]. split; vm_compute; discriminate. Qed.
+Theorem C08_fp_config_sticky_refuted :
+  sym_run [] w_ign 9 8 w_dirs only_fp_sticky w_fs w_reload <> sym_fresh_run [] w_ign 9 8 w_dirs only_fp_sticky w_fs w_reload.
+Proof. vm_compute; discriminate. Qed.
